@@ -83,12 +83,20 @@ def run(ctx):
     fn, g, where = fn_cfg(ctx, CM, "Commit._check_out_of_date_tree")
     rs = [n.id for n in g.nodes if n.kind == "stmt" and isinstance(n.ast, ast.Raise) and "OutOfDateTree" in norm(n.ast)]
     ftp = one(bound_names(fn, lambda t, n: t == "self.work_tree.get_parent_ids()[0]"), "first_tree_parent = self.work_tree.get_parent_ids()[0]", where)
-    tests = [n for n in g.nodes if n.kind == "test" and isinstance(n.ast, ast.Compare) and len(n.ast.ops) == 1 and isinstance(n.ast.ops[0], ast.NotEq) and ftp in (norm(n.ast.left), norm(n.ast.comparators[0]))]
+    def _cmp_of(t):
+        """the `<master tip> != <first tree parent>` comparison inside a test (the test itself or one conjunct)"""
+        for c_ in ([t] + (list(t.values) if isinstance(t, ast.BoolOp) and isinstance(t.op, ast.And) else [])):
+            if isinstance(c_, ast.Compare) and len(c_.ops) == 1 and isinstance(c_.ops[0], ast.NotEq) and ftp in (norm(c_.left), norm(c_.comparators[0])):
+                return c_
+        return None
+
+    tests = [n for n in g.nodes if n.kind == "test" and _cmp_of(n.ast) is not None]
     ok = bool(rs) and len(tests) == 1
     v_ml = "master_last"
     if ok:
-        v_ml = [x for x in (norm(tests[0].ast.left), norm(tests[0].ast.comparators[0])) if x != ftp][0]
-        g2 = g.assume({norm(tests[0].ast): True, f"{v_ml} != breezy.revision.NULL_REVISION": True})
+        c_ = _cmp_of(tests[0].ast)
+        v_ml = [x for x in (norm(c_.left), norm(c_.comparators[0])) if x != ftp][0]
+        g2 = g.assume({norm(c_): True, f"{v_ml} != breezy.revision.NULL_REVISION": True})
         ok = g.exit not in g2.reach([tests[0].id])
     ctx.check("R4-tree-out-of-date-refused", where, ok, "a tree whose first parent is not the master tip is refused (OutOfDateTree)")
 
